@@ -117,4 +117,20 @@ SPEC = {
             {"name": "random", "test": "TestC10", "checks": [1000, 10000], "shards": [4, 14], "timeout": [900, 7200]},
         ],
     },
+    "C15": {
+        "level": "exploration",
+        "rule": "(enum) small-scope exhaustive sub-scope of the scope the property names: 2 clients on a base state with tombstones, one edit "
+                "per client from 10 templates (2 per family: object, array, text, counter, tree; all 100 pairs, so also edits of different "
+                "containers), one undo and an optional redo by either client, every interleaving, every placement of <=3 sync steps in the gaps "
+                "(406 200 words; quick runs every 40th word offset by the seed, thorough all of them, exhaustive:true); (random) generated "
+                "programs over the C14 content alphabet with undo/redo steps, 2..4 clients, arbitrary syncs, client GC on and off. oracle as C01: "
+                "no failing sync/undo/redo, byte-identical replicas after the quiescent round, clone==root. Words/steps that trigger the listed "
+                "known findings F6, F10, F11 are rewritten by construction and counted. non-trivial = an undo/redo was executed in a case with "
+                "concurrent changes or a client-side GC purge; distinct = distinct program hash",
+        "assumptions": ["the full scope named by the property (3 edits per client, 2 undo/redo) is > 1e8 histories and is sampled by the random part, not enumerated"],
+        "parts": [
+            {"name": "enum", "test": "TestC15Enum", "kind": "enum", "checks": [0, 0], "shards": [6, 14], "timeout": [900, 7200]},
+            {"name": "random", "test": "TestC15", "checks": [800, 8000], "shards": [4, 14], "timeout": [900, 7200]},
+        ],
+    },
 }
